@@ -38,7 +38,7 @@ ORIG_LOCALS = {
                                    'attr_name', 'n', 'ie', 'name'],
     "RawMeshData._generate_face_corners": ['nc', 'nf', 'f', 'iF', 'F', 'v'],
     "RawMeshData._generate_cell_corners": ['nce', 'nca', 'iC', 'C', 'v'],
-    "RawMeshData._generate_cell_faces": ['nce', 'nca', 'face_id', 'iF', 'F', 'key', 'iC', 'C', 'v0', 'v1', 'v2', 'v3',
+    "RawMeshData._generate_cell_faces": ['nce', 'nca', 'face_id', 'iF', 'F', 'key', 'new_elem', 'new_adj', 'iC', 'C', 'v0', 'v1', 'v2', 'v3',
                                          'faces_C', 'v4', 'v5', 'v6', 'v7', 'v8', 'face'],
     "RawMeshData._complete_edges_from_faces": ['hard_edges', 'e', 'edge_set', 'f', 'nf', 'i', 'edge'],
     "RawMeshData._complete_faces_from_cells": ['face_set', 'f', 'C', 'faces_C', 'v1', 'v2', 'v3', 'v4', 'v5', 'v6', 'v7',
@@ -73,10 +73,24 @@ def bound_names(fn):
     return out
 
 
+ALLOWED_DECORATORS = {"RawMeshData.dimensionality": ["property"]}
+
+
+def check_defaults(fn, qual, rel):
+    """every default of an anchored callable is None or an immutable constant (a mutable default is shared by all calls)"""
+    for d in list(fn.args.defaults) + [k for k in fn.args.kw_defaults if k is not None]:
+        if not (isinstance(d, ast.Constant) and (d.value is None or isinstance(d.value, (bool, int, float, str)))):
+            T.fail(rel, d, "%s has the default argument `%s`: only None / immutable constants are modelled" % (qual, ast.unparse(d)))
+
+
 def fdef(tree, qual, rel):
     """find_def + mapping renamed locals back to the names the shape matchers are written with"""
     import copy
     fn = T.find_def(tree, qual, rel)
+    if fn.decorator_list and [ast.unparse(d) for d in fn.decorator_list] != ALLOWED_DECORATORS.get(qual, []):
+        T.fail(rel, fn, "%s carries decorator(s) %s (memoisation / wrapping of an anchored function is not modelled)"
+               % (qual, [ast.unparse(d) for d in fn.decorator_list]))
+    check_defaults(fn, qual, rel)
     orig = ORIG_LOCALS.get(qual)
     cur = bound_names(fn)
     if orig is None or cur == orig:
@@ -298,6 +312,22 @@ def gen():
                 T.fail(DC, st, "%s: %s is not reset to an empty container" % (qual, tg))
             got.add(tg[5:])
         return got
+    # constructors: fresh containers for every object (the lists are copies of what is given)
+    def body_is(qual, lines, what):
+        fn = fdef(tree, qual, DC)
+        parts.append((qual, T.sha(src, fn)))
+        if [ast.unparse(x) for x in T.body_nodoc(fn)] != lines:
+            T.fail(DC, fn, "%s: %s" % (qual, what))
+    body_is("_BaseDataContainer.__init__",
+            ["self.id = id", "if attributes is None:\n    self._attr = dict()\nelse:\n    assert isinstance(attributes, dict)\n    self._attr = attributes"],
+            "does not create a fresh attribute dict when none is given")
+    body_is("DataContainer.__init__", ["super().__init__(attributes, id)", "self._data = [] if data is None else list(data)"],
+            "does not hold a fresh list / a copy of the list it is given")
+    body_is("CornerDataContainer.__init__",
+            ["super().__init__(attributes, id)", "self._elem = [] if elem is None else list(elem)", "self._adj = [] if adj is None else list(adj)"],
+            "does not hold fresh lists / copies of the lists it is given")
+    for q in ("_BaseDataContainer.create_attribute", "DataContainer.append", "DataContainer.__iadd__", "DataContainer.__setitem__"):
+        fdef(tree, q, DC)   # decorators / defaults only
     rc = resets("CornerDataContainer.clear", ("_elem", "_adj", "_attr"))
     defs.append("(* CornerDataContainer.clear(): the (_elem, _adj) lists afterwards; are the attributes dropped *)\n"
                 "Definition corner_clear (elem adj : list Z) : list Z * list Z := (%s, %s).\n"
@@ -315,6 +345,22 @@ def gen():
     # ------------------------------------------------------------------ mesh_data.py
     src, tree = T.load(MD)
     
+    # --- constructor: seven containers, fresh unless taken from the mesh being re-wrapped; no cached dimensionality, not prepared
+    ini = fdef(tree, "RawMeshData.__init__", MD)
+    parts.append(("RawMeshData.__init__", T.sha(src, ini)))
+    want = ["self.vertices = DataContainer(id='vertices') if mesh is None else mesh.vertices"]
+    for nm, cl in (("edges", "DataContainer"), ("faces", "DataContainer"), ("face_corners", "CornerDataContainer"),
+                   ("cells", "DataContainer"), ("cell_corners", "CornerDataContainer"), ("cell_faces", "CornerDataContainer")):
+        want.append("self.%s = %s(id='%s') if mesh is None or not hasattr(mesh, '%s') else mesh.%s" % (nm, cl, nm, nm, nm))
+    want += ["self._dimensionality: int = None", "self._prepared: bool = False"]
+    if [ast.unparse(x) for x in T.body_nodoc(ini)] != want:
+        T.fail(MD, ini, "RawMeshData.__init__ has an unexpected shape")
+    dp = fdef(tree, "RawMeshData.dimensionality", MD)
+    parts.append(("RawMeshData.dimensionality", T.sha(src, dp)))
+    if [ast.unparse(x) for x in T.body_nodoc(dp)] != ["if self._dimensionality is None:\n    self._compute_dimensionality()",
+                                                      "return self._dimensionality"]:
+        T.fail(MD, dp, "RawMeshData.dimensionality is not the lazily computed value")
+
     # --- prepare(): order of the steps
     pr = fdef(tree, "RawMeshData.prepare", MD)
     parts.append(("RawMeshData.prepare", T.sha(src, pr)))
@@ -545,8 +591,18 @@ def gen():
         T.fail(MD, f, "_generate_cell_faces: unexpected structure")
     defs.append("Definition cf_regen (nce nca : Z) : bool := %s." % trn.b(b[2].test))
     ib = b[2].body
+    # two accepted forms: ids/owners appended to the container as they are found, or collected in local lists that are
+    # committed after the loop (then a missing face - KeyError - leaves the container untouched)
+    atomic = False
+    if (len(ib) == 6 and ast.unparse(ib[2]) == "new_elem, new_adj = ([], [])"
+            and ast.unparse(ib[4]) == "self.cell_faces._elem += new_elem" and ast.unparse(ib[5]) == "self.cell_faces._adj += new_adj"):
+        atomic = True
+        ib = [ib[0], ib[1], ib[3]]
     if not (len(ib) == 3 and ast.unparse(ib[0]) == "face_id = dict()" and isinstance(ib[1], ast.For) and isinstance(ib[2], ast.For)):
         T.fail(MD, b[2], "_generate_cell_faces: unexpected block structure")
+    defs.append("(* are the new ids / owners committed only after every face was found *)\n"
+                "Definition cf_atomic : bool := %s." % ("true" if atomic else "false"))
+    tgt_e, tgt_a = ("new_elem", "new_adj") if atomic else ("self.cell_faces._elem", "self.cell_faces._adj")
     l1 = ib[1]
     if not (ast.unparse(l1.iter) == "enumerate(self.faces)" and [ast.unparse(s) for s in l1.body] ==
             ["key = utils.keyify(%s)" % l1.target.elts[1].id, "face_id[key] = %s" % l1.target.elts[0].id]):
@@ -571,9 +627,9 @@ def gen():
             cond = trn.b(s.test)
             st = s.body[0]
         u = ast.unparse(st)
-        if u == "self.cell_faces._elem.append(face_id[utils.keyify(%s)])" % face:
+        if u == "%s.append(face_id[utils.keyify(%s)])" % (tgt_e, face):
             k = "elem"
-        elif u == "self.cell_faces._adj.append(%s)" % iC:
+        elif u == "%s.append(%s)" % (tgt_a, iC):
             k = "adj"
         else:
             T.fail(MD, st, "_generate_cell_faces: unexpected statement in the face loop")
